@@ -275,6 +275,9 @@ func C07(c *Ctx) {
 	c.reportNil("C07-R1", res)
 	c.R.Extra["nullable_sources"] = len(srcs)
 
+	// writes into copies of absent bindings (Walk's and Step's error paths) rely on Copy never answering nil
+	c.freshMapResult("C07-R1", "Bindings.Copy: never nil", c.P.Func("match", "Bindings", "Copy"), "Bindings.Copy can return nil: Step and Walk extend the copy of absent (nil) bindings on their error paths, and an assignment to an entry of a nil map panics")
+	c.freshMapResult("C07-R1", "NewBindings: never nil", c.P.Func("match", "", "NewBindings"), "NewBindings can return nil")
 	c07Invariant(c, compile)
 	// ------------------------------------------------------------------ R2
 	n2 := map[string]int{}
